@@ -191,6 +191,8 @@ impl Storage {
             self.update_min_filtered_block_number(0);
             // The genesis block key marks a finished initialization, so it is written at last:
             // if the process is interrupted before, the initialization is done again at next start.
+            #[cfg(ckb_light_client_verif)]
+            crate::verif_hooks::point("write", "init_genesis_block:put");
             self.db
                 .put(genesis_block_key, genesis_hash_and_txs_hash.as_slice())
                 .expect("db put genesis block should be ok");
